@@ -134,6 +134,14 @@ CLAIMED.update({
             'DESIGN.md §3 C19'),
 })
 
+CLAIMED.update({
+    'C17': ('model_checking',
+            'pairs of exports compared by z3 for all assignments: same formula on dd.cudd vs dd.autoref, recursive vs iterative prefix translator vs an independent reader, and every BDD obtained earlier re-exported after each operation of an enumerated history (declare, add, quantify, substitute, print as formula, reorder, collect, copy, synthesize, repeat, relabel); str(automaton) lines re-read and compared with the BDD they label',
+            'Histories are enumerated (all sequences of length <= 3 over a 12-operation alphabet, seeded longer ones); the solver quantifies over assignments, not over histories -- stated plainly.',
+            'Trusted: z3, dd node accessors; dd reordering / garbage collection are exercised, not verified. Reuse of a collected node identifier is only met opportunistically.',
+            'DESIGN.md §3 C17'),
+})
+
 NOT_APPLICABLE = {
     'C16': 'Parser/precedence/round-trip: PLY regex lexer + table-driven LALR driver over token sequences; no arithmetic or bit-level state for a solver to range over. CrossHair on lexyacc.Parser.parse with symbolic strings (len <= 3) answers "Unable to meet precondition" after 90 s. See DESIGN.md §5.',
 }
